@@ -151,3 +151,14 @@ func (p *Prog) desc(v ssa.Value, d int) string {
 
 // BaseOfFieldAddr returns the descriptor of the object whose field is addressed.
 func (p *Prog) BaseOfFieldAddr(fa *ssa.FieldAddr) string { return p.Desc(fa.X) }
+
+// DescUp is Desc, except that a parameter of a transparent helper with exactly one call site is described by what the
+// caller passes (for rules that compare a value used inside a helper with the caller's names).
+func (p *Prog) DescUp(v ssa.Value) string {
+	if x, ok := v.(*ssa.Parameter); ok {
+		if as := transparentArgs(x); len(as) == 1 {
+			return p.DescUp(as[0])
+		}
+	}
+	return p.Desc(v)
+}
